@@ -301,7 +301,6 @@ func c04run(t *testing.T, sc c04script) (res c04result) {
 		}
 		q := c04firstRound(sc) / 4
 		_ = q
-		value := &pbv1.UnsignedDataSet{Set: map[string][]byte{"0xabc": []byte("proposal")}}
 		done := make(chan int, sc.N)
 		running := 0
 		for _, m := range net.members {
@@ -327,7 +326,11 @@ func c04run(t *testing.T, sc c04script) (res c04result) {
 				verifyCh := make(chan proto.Message, 1)
 				// the member's own proposal (every running member proposes the same data here; what is decided is not
 				// the subject of C04), possibly late by less than a round
-				v := proto.Clone(value).(*pbv1.UnsignedDataSet)
+				// two validators per duty (the normal case): a proto map with two entries, inserted in descending key order so
+				// that the sender's default marshalling (map iteration order, pinned to insertion order here) differs from the
+				// canonical one - the agreed hash must not depend on which of the two a node sees
+				v := &pbv1.UnsignedDataSet{Set: map[string][]byte{}}
+				v.Set["0xdef"] = []byte(fmt.Sprintf("second-validator-of-%d", m.idx))
 				v.Set["0xabc"] = []byte(fmt.Sprintf("proposal-of-%d", m.idx))
 				hash, err := hashProto(v)
 				if err != nil {
